@@ -2830,7 +2830,8 @@ XPath::functionStringLength(
 
     DOMServices::getNodeData(*context, executionContext, theCounter, &FormatterListener::characters);
 
-    const FormatterListener::size_type  theResult = theCounter.getCount();
+    // XPath counts characters, not UTF-16 code units.
+    const FormatterListener::size_type  theResult = theCounter.getCharacterCount();
     assert(static_cast<double>(theResult) == theResult);
 
     return static_cast<double>(theResult);
@@ -2850,7 +2851,8 @@ XPath::functionStringLength(
 
     executeMore(context, opPos + 2, executionContext, theCounter, &FormatterListener::characters);
 
-    const FormatterListener::size_type  theResult = theCounter.getCount();
+    // XPath counts characters, not UTF-16 code units.
+    const FormatterListener::size_type  theResult = theCounter.getCharacterCount();
     assert(static_cast<double>(theResult) == theResult);
 
     return static_cast<double>(theResult);
